@@ -270,10 +270,15 @@ func (c *mockCtl) ProduceProposal(be *bft.ByzantineEvidence, _ *crypto.VDF) (uin
 
 // ValidateProposal mirrors the stateless part of controller.ValidateProposal (the FSM is out
 // of scope of the BFT world): basic proposal checks plus the real evidence validation.
-func (c *mockCtl) ValidateProposal(_ uint64, qc *lib.QuorumCertificate, evidence *bft.ByzantineEvidence) (*lib.BlockResult, lib.ErrorI) {
+func (c *mockCtl) ValidateProposal(rcBuildHeight uint64, qc *lib.QuorumCertificate, evidence *bft.ByzantineEvidence) (*lib.BlockResult, lib.ErrorI) {
 	block, err := qc.CheckProposalBasic(ChainHeight, NetworkID, ChainID)
 	if err != nil {
 		return nil, err
+	}
+	// the real controller recomputes the certificate results from root-chain data AT the build height (reward
+	// recipients, order book, DEX batch): a block validates only with the build height it was built at
+	if built, ok := builtAt.Load(string(block.BlockHeader.Hash)); ok && built.(uint64) != rcBuildHeight {
+		return nil, lib.ErrInvalidRCBuildHeight()
 	}
 	if err = c.n.BFT.ValidateByzantineEvidence(qc.Results.SlashRecipients, evidence); err != nil {
 		return nil, err
@@ -306,6 +311,10 @@ func (c *mockCtl) SendToProposer(msg lib.Signable) {
 	c.w.enqueue(c.n.Idx, to, m, false)
 }
 
+// builtAt: block hash -> the root height the block was built at (MakeBlock is a pure function of its arguments, so
+// one process-wide table serves every world).
+var builtAt sync.Map
+
 // MakeBlock builds a structurally valid block whose identity is (proposer, rh, round, salt).
 func MakeBlock(proposer int, rh, round uint64, salt int) ([]byte, *lib.CertificateResult) {
 	h32 := func(s string) []byte { return crypto.Hash([]byte(s)) }
@@ -317,6 +326,7 @@ func MakeBlock(proposer int, rh, round uint64, salt int) ([]byte, *lib.Certifica
 	if _, err := hdr.SetHash(); err != nil {
 		panic(err)
 	}
+	builtAt.Store(string(hdr.Hash), rh)
 	bz, err := lib.Marshal(&lib.Block{BlockHeader: hdr})
 	if err != nil {
 		panic(err)
